@@ -34,6 +34,10 @@ THEOREMS = [
     "BeyondVerif.C17.dkep2dv_first_order_a",
     "BeyondVerif.C17.dkep2dv_dv_a",
     "BeyondVerif.C17.dkep2aol_splits",
+    "BeyondVerif.C17.kepContAccel_magnitude",
+    "BeyondVerif.C17.into_uses_latest_partial",
+    "BeyondVerif.C17W.stale_axes_after_reregistration_under_farther_parent",
+    "BeyondVerif.C17W.reregistration_under_same_or_nearer_parent_is_fine",
     "BeyondVerif.C17.tableaux_consistent",
     "BeyondVerif.C17.thrust_time_by_stage_counts",
     "BeyondVerif.C17.whole_steps_thrust_time",
@@ -587,30 +591,31 @@ def correspondence(ctx):
             add(" ".join(["c17.local", tag] + ftoks(x)), lambda rep, inp=inp: rep == "value-error" or out.fail("c17-local", "model accepts a tag the code rejects", inp, observed="value-error", expected=rep))
         else:
             add(" ".join(["c17.local", tag] + ftoks(x)), lambda rep, inp=inp, real=real: cmp_floats(out, "c17-local", "to_local differs from the translated model", inp, real, rep, 1e-12))
-    # 2. projections
-    for _ in range(ctx.n(600, 30000)):
-        x = gen_state(rng)
+    # 2. projections; every maneuver object is evaluated on a first state, on a second one, and on the first again
+    #    (the model is a function of the current state: nothing of an earlier evaluation may survive in the object)
+    for _ in range(ctx.n(300, 15000)):
         d = gen_vec(rng)
         tag = rng.choice(["QSW", "TNW", "qsw", None, "EME2000", "RSW"])
         up = tag.upper() if isinstance(tag, str) else None
         mt = up if up in ("QSW", "TNW") else "-"
-        orb = mk_orbit(x)
         kind = rng.choice(["impulse", "accel", "accdv"])
-        inp = {"kind": kind, "frame": tag, "state": x, "vector": d}
         mag = norm(d)
+        dur = rng.choice([1.0, 60.0, 90.5, 3600.0, 0.25, 172800.25])
         if kind == "impulse":
-            real = ImpulsiveMan(d0, d, frame=tag).dv(orb)
-            req = ["c17.proj", mt] + ftoks(x) + ftoks(d)
+            man = ImpulsiveMan(d0, d, frame=tag)
         elif kind == "accel":
-            real = ContinuousMan(d0, timedelta(seconds=60), accel=d, frame=tag).accel(orb)
-            req = ["c17.proj", mt] + ftoks(x) + ftoks(d)
+            man = ContinuousMan(d0, timedelta(seconds=60), accel=d, frame=tag)
         else:
-            dur = rng.choice([1.0, 60.0, 90.5, 3600.0, 0.25])
-            real = ContinuousMan(d0, timedelta(seconds=dur), dv=d, frame=tag).accel(orb)
-            req = ["c17.accdv", mt] + ftoks(x) + ftoks(d) + [f2b(dur)]
+            man = ContinuousMan(d0, timedelta(seconds=dur), dv=d, frame=tag, date_pos=rng.choice(["start", "stop", "median"]))
             mag /= dur
-        out.count(key=(kind, str(tag), tuple(x), tuple(d)), kind=f"proj-{kind}-{mt}")
-        add(" ".join(req), lambda rep, inp=inp, real=real, mag=mag: cmp_floats(out, "c17-projection", "projected vector differs from the model", inp, real, rep, 1e-12 * mag + 1e-300))
+        xs = [gen_state(rng), gen_state(rng)]
+        for visit, x in enumerate([xs[0], xs[1], xs[0]]):
+            orb = mk_orbit(x)
+            inp = {"kind": kind, "frame": tag, "state": x, "vector": d, "evaluation_of_this_object": visit}
+            real = man.dv(orb) if kind == "impulse" else man.accel(orb)
+            req = ["c17.accdv" if kind == "accdv" else "c17.proj", mt] + ftoks(x) + ftoks(d) + ([f2b(dur)] if kind == "accdv" else [])
+            out.count(key=(kind, str(tag), tuple(x), tuple(d), visit), kind=f"proj-{kind}-{mt}", visit=visit)
+            add(" ".join(req), lambda rep, inp=inp, real=real, mag=mag: cmp_floats(out, "c17-projection", "projected vector differs from the model", inp, real, rep, 1e-12 * mag + 1e-300))
     # 3. KeplerianImpulsiveMan.dv = to_tnw(orb).T @ _dv, and dkep2dv / dkep2aol themselves
     for _ in range(ctx.n(600, 30000)):
         da, di, dO = gen_incr(rng)
@@ -645,6 +650,15 @@ def correspondence(ctx):
             if not core.close(dvv[2], mdvw, rtol=1e-9, atol=1e-300):
                 out.fail("c17-dkep", "dv_w differs between dkep2dv and the translated model", inp, observed=dvv, expected=[mdvt, 0.0, mdvw])
         add(" ".join(["c17.dkep"] + ftoks([mu, a, i, v, da, di, dO])), chk)
+        from beyond.orbits.man import KeplerianContinuousMan
+        kdur = rng.choice([60.0, 90.5, 600.0, 0.75, 172800.25])
+        kman = KeplerianContinuousMan(d0, timedelta(seconds=kdur), da=da, di=di, dOmega=dO, date_pos=rng.choice(["start", "stop", "median"]))
+        kreal = kman.accel(orbc)
+        if finite:
+            out.count(key=("kcont", tuple(kep), da, di, dO, kdur), kind="kep-continuous", duration=kdur)
+            add(" ".join(["c17.kcont"] + ftoks(x) + ftoks([mu, a, i, v, da, di, dO, kdur])),
+                lambda rep, inp=dict(inp, duration=kdur), real=kreal, m=norm(dvv) / kdur, v=v, kdur=kdur: cmp_floats(
+                    out, "c17-kepcont", "KeplerianContinuousMan.accel differs from to_tnw^T (dkep2dv / duration)", inp, real, rep, 1e-12 * m + 64 * 2.3e-16 * v / kdur + 1e-300))
         real_aol = float(dkep2aol(orbc, di, dO))
         add(" ".join(["c17.aol"] + ftoks([i, di, dO])), lambda rep, inp=inp, r=real_aol: cmp_floats(out, "c17-aol", "dkep2aol differs from the model", inp, [r], rep, 1e-12))
     # 4. orbit-attached frames, as sessions: names are registered, used at a few recurring dates, registered again from
@@ -654,7 +668,9 @@ def correspondence(ctx):
     sess_reqs, sess_meta = [], []
     for sidx in range(ctx.n(10, 60)):
         _FRAME_SEQ[0] += 1
-        names = [f"C17S{_FRAME_SEQ[0] % 7}{c}" for c in "ab"]
+        # names are not shared between sessions: what an earlier session registered under a name stays in the orientation graph
+        # (open finding C17-reregistered-under-other-parent) and the registry model of a session starts empty
+        names = [f"C17S{_FRAME_SEQ[0]}{c}" for c in "ab"]
         orbits = [gen_ref_orbit(rng, d0) for _ in range(3)]
         dates = [d0 + timedelta(seconds=t) for t in (0.0, q6(rng.uniform(-3000, 3000)), q6(rng.uniform(0, 86400)))]
         toks, convs, bound = [], [], set()
@@ -663,9 +679,15 @@ def correspondence(ctx):
             if name not in bound or rng.random() < 0.3:
                 oid = rng.randrange(len(orbits))
                 ori = rng.choice(["QSW", "TNW", "QSW", "TNW", None])
-                orbit2frame(name, orbits[oid][1], orientation=ori, exists_warning=False)
+                # the `parent` option: mostly the default, sometimes another inertial frame (number of orientation links to EME2000)
+                pname, pdist = rng.choice([("EME2000", 0)] * 5 + [("MOD", 1), ("TOD", 2), ("TEME", 3)])
+                if pdist:
+                    from beyond.frames.frames import get_frame
+                    orbit2frame(name, orbits[oid][1], orientation=ori, parent=get_frame(pname), exists_warning=False)
+                else:
+                    orbit2frame(name, orbits[oid][1], orientation=ori, exists_warning=False)
                 bound.add(name)
-                toks += ["reg", name, ori or "-", str(oid)]
+                toks += ["reg", name, ori or "-", f"{oid}@{pdist}"]
                 continue
             date = rng.choice(dates)
             direction = rng.choice(["to", "from"])
@@ -687,15 +709,23 @@ def correspondence(ctx):
             out.fail("c17-frame-session", "registry model returned a wrong number of bindings: " + rep[:80], {"session": toks}); continue
         seen = {}
         for (name, date, direction, x, real), ent in zip(convs, ents):
-            mt, oid = ent.split(":") if ":" in ent else ("?", "0")
+            latest, into = ent.split("/") if "/" in ent else ("?:0", "?:0")
+            # origin (centre link) and conversions out of the frame: the latest registration; axes of a conversion into it:
+            # the registration the registry model names (the latest one unless the name was registered under several parents)
+            use = into if direction == "to" else latest
+            mt, oid = use.split(":") if ":" in use else ("?", "0")
             kep, ref = orbits[int(oid)]
             refc = list(map(float, ref.propagate(date).copy(form="cartesian")))
+            orig = list(map(float, orbits[int(latest.split(":")[1])][1].propagate(date).copy(form="cartesian"))) if ":" in latest else refc
             sr, sv = norm(refc[:3]), norm(refc[3:])
             rebound = seen.get((name, str(date)), ent) != ent
             seen[(name, str(date))] = ent
+            stale = direction == "to" and into != latest
             inp = {"session": " ".join(toks), "frame": name, "binding": ent, "ref_kep": kep, "date": str(date), "direction": direction, "state": x,
                    "same_name_and_date_used_before_with_another_binding": rebound}
-            out.count(key=("sess", name, str(date), direction, tuple(x)), kind=f"frame-{direction}-{mt}", rebound_same_date=rebound)
+            out.count(key=("sess", name, str(date), direction, tuple(x)), kind=f"frame-{direction}-{mt}", rebound_same_date=rebound, axes_of_an_earlier_registration=stale)
+            # M_axes (x - x_origin) = M_axes ((x - x_origin + x_axes) - x_axes)
+            xin = [a - b + c for a, b, c in zip(x, orig, refc)] if stale else x
 
             def chk6(rep2, real=real, inp=inp, sr=sr, sv=sv):
                 if not rep2[0].isdigit():
@@ -703,7 +733,7 @@ def correspondence(ctx):
                 m = [b2f(t) for t in rep2.split()]
                 if not (all(abs(a - b) <= 1e-9 * sr for a, b in zip(real[:3], m[:3])) and all(abs(a - b) <= 1e-9 * sv + 1e-9 for a, b in zip(real[3:], m[3:]))):
                     out.fail("c17-frame", "conversion through an orbit-attached frame differs from the model (binding given by the registry model)", inp, observed=real, expected=m)
-            add(" ".join(["c17." + direction, mt] + ftoks(refc) + ftoks(x)), chk6)
+            add(" ".join(["c17." + direction, mt] + ftoks(refc) + ftoks(xin)), chk6)
     # 5. impulse windows: the loop `date += step` with the real ImpulsiveMan.check on real Dates (integer milliseconds)
     for _ in range(ctx.n(500, 20000)):
         t0 = rng.choice([0, rng.randrange(0, 86_400_000)])
@@ -1048,7 +1078,10 @@ def correspondence2(ctx, out, add, d0):
             if name not in bound or rng.random() < 0.25:
                 oid = rng.randrange(len(refs))
                 ori = rng.choice(["QSW", "TNW", "qsw", "TNW", None])
-                orbit2frame(name, refs[oid][2], orientation=ori, exists_warning=False)
+                if rng.random() < 0.5:
+                    orbit2frame(name, refs[oid][2], orientation=ori, exists_warning=False)
+                else:
+                    refs[oid][2].as_frame(name, orientation=ori, exists_warning=False)
                 bound[name] = (oid, ori)
                 toks += ["reg", name, ori.upper() if ori else "-", str(oid)]
                 continue
@@ -1191,17 +1224,27 @@ def oracle_projection(out, rng, N):
         else:
             exp = np.array(dv)
         mag = norm(dv)
+        x2 = gen_state(rng)
+        orb2 = mk_orbit(x2)
         for kind in ("impulse", "accel", "accel-from-dv"):
             if kind == "impulse":
-                got = ImpulsiveMan(d, dv, frame=tag).dv(orb)
+                man = ImpulsiveMan(d, dv, frame=tag)
+                fresh = lambda: ImpulsiveMan(d, dv, frame=tag)   # noqa: E731
+                call = lambda m, o: m.dv(o)                      # noqa: E731
                 ref, refmag = exp, mag
             elif kind == "accel":
-                got = ContinuousMan(d, timedelta(seconds=120), accel=dv, frame=tag).accel(orb)
+                man = ContinuousMan(d, timedelta(seconds=120), accel=dv, frame=tag)
+                fresh = lambda: ContinuousMan(d, timedelta(seconds=120), accel=dv, frame=tag)   # noqa: E731
+                call = lambda m, o: m.accel(o)                   # noqa: E731
                 ref, refmag = exp, mag
             else:
                 dur = rng.choice([1.0, 60.0, 90.5, 3600.0])
-                got = ContinuousMan(d, timedelta(seconds=dur), dv=dv, frame=tag, date_pos=rng.choice(["start", "stop", "median"])).accel(orb)
+                pos_ = rng.choice(["start", "stop", "median"])
+                man = ContinuousMan(d, timedelta(seconds=dur), dv=dv, frame=tag, date_pos=pos_)
+                fresh = lambda dur=dur, pos_=pos_: ContinuousMan(d, timedelta(seconds=dur), dv=dv, frame=tag, date_pos=pos_)   # noqa: E731
+                call = lambda m, o: m.accel(o)                   # noqa: E731
                 ref, refmag = exp / dur, mag / dur
+            got = call(man, orb)
             out.count(key=(kind, str(tag), tuple(x), tuple(dv)), kind=f"{kind}-{up}", nontrivial=mag > 0)
             inp = {"kind": kind, "frame": tag, "state": x, "vector": dv}
             if not np.all(np.isfinite(got)):
@@ -1211,6 +1254,26 @@ def oracle_projection(out, rng, N):
                          observed=float(np.linalg.norm(got)), expected=refmag)
             elif not np.allclose(got, ref, rtol=0, atol=1e-12 * refmag + 1e-300):
                 out.fail(f"projection-direction-{kind}-{up}", "projected vector is not along the stated axes", inp, observed=got.tolist(), expected=ref.tolist())
+            # history: the same object on another state, then on the first again, against a freshly built object
+            got2, want2 = call(man, orb2), call(fresh(), orb2)
+            got3 = call(man, orb)
+            out.count(key=(kind, str(tag), tuple(x), tuple(x2), tuple(dv), "hist"), kind=f"{kind}-{up}-second-state", nontrivial=mag > 0)
+            if not np.array_equal(got2, want2) or not np.array_equal(got3, got):
+                out.fail(f"projection-history-{kind}-{up}", "a maneuver object evaluated on a second state does not answer like a freshly built one "
+                         "(something of the first evaluation survives in the object)", dict(inp, second_state=x2), observed=np.array(got2).tolist(), expected=np.array(want2).tolist())
+            # the argument may be given in any form and is left as it was
+            form = rng.choice(["keplerian", "spherical", "cartesian"])
+            if norm(x[:3]) > 1e6 and (form != "keplerian" or (state_kind(x).startswith("elliptic") and norm(x[3:]) ** 2 * norm(x[:3]) / MU > 0.3)):
+                arg = orb.copy(form=form)
+                b_form, b_arr, b_frame = arg.form.name, np.array(arg).tobytes(), str(arg.frame)
+                gotf = call(fresh(), arg)
+                out.count(key=(kind, str(tag), tuple(x), tuple(dv), form), kind=f"{kind}-{up}-arg-{form}", nontrivial=mag > 0)
+                if (arg.form.name, np.array(arg).tobytes(), str(arg.frame)) != (b_form, b_arr, b_frame):
+                    out.fail(f"projection-argument-modified-{kind}", "the orbit handed to a maneuver is modified by the call", dict(inp, form=form),
+                             observed=[arg.form.name, str(arg.frame)], expected=[b_form, b_frame])
+                elif not np.allclose(gotf, ref, rtol=0, atol=1e-7 * refmag + 1e-300):
+                    out.fail(f"projection-argument-form-{kind}", "the projected vector depends on the form the orbit is given in", dict(inp, form=form),
+                             observed=np.array(gotf).tolist(), expected=ref.tolist())
 
 
 _FRAME_SEQ = [0]
@@ -1391,7 +1454,10 @@ def oracle_impulses(out, rng, N):
                          dict(inp, t=ta, t_next=tb), observed=jump.tolist(), expected=exp.tolist())
                 ok = False
                 break
-        if ok and any(c != 1 for c in applied):
+        # with an adaptive method the last yielded point can lie before the requested stop (the step that crosses it is not
+        # given out with real steps): only maneuvers dated up to the last yielded point are claimed
+        t_last = (pts[-1].date - d0).total_seconds()
+        if ok and any(c != 1 for (t, _, _), c in zip(mans, applied) if t <= t_last):
             out.fail(f"impulse-window-count-{method}", "a maneuver date strictly inside the span falls in no / several integration windows", inp, observed=applied)
         on = sum(1 for t, _, _ in mans if abs(t / step - round(t / step)) < 1e-9)
         out.count(key=("imp", method, step, tuple(ts)), kind=f"impulse-{method}", n_man=len(mans), on_grid=on)
@@ -1484,20 +1550,20 @@ def oracle_windows(out, rng, N):
             if bool(got) != want:
                 out.fail("impulse-check-boundary", "ImpulsiveMan.check(date, step) is not date < t_m <= date + step",
                          {"date_ms": t, "step_ms": h, "man_ms": t + off}, observed=bool(got), expected=want)
-        man = ContinuousMan(date, step, accel=[1e-3, 0, 0], date_pos=rng.choice(["start", "start", "stop", "median"]))
-        s_ms = round((man.start - d0).total_seconds() * 1000)
-        if h % 2 and man.date_pos == "median":
-            continue
-        for off, want in ((0, True), (-1, False), (h - 1, h > 1 or True), (h, False), (h + 1, False)):
-            if off == h - 1:
-                want = True
+        hh = 2 * ((h + 1) // 2)       # an even number of ms, so that the middle is a whole ms
+        pos_ = rng.choice(["start", "stop", "median", "Start", "MEDIAN"])
+        man = ContinuousMan(date, timedelta(milliseconds=hh), accel=[1e-3, 0, 0], date_pos=pos_)
+        s_ms = t - {"start": 0, "stop": hh, "median": hh // 2}[pos_.lower()]      # what date_pos means
+        for off, want in ((0, True), (-1, False), (hh - 1, True), (hh, False), (hh + 1, False), (hh // 2, True)):
             got = man.check(ms_date(d0, s_ms + off))
-            out.count(key=("ccheck", s_ms, h, off), kind="thrust-check", expected=want)
+            out.count(key=("ccheck", s_ms, hh, off, pos_), kind="thrust-check-" + pos_.lower(), expected=want)
             if bool(got) != want:
-                out.fail("thrust-check-boundary", "ContinuousMan.check(date) is not start <= date < stop",
-                         {"start_ms": s_ms, "duration_ms": h, "date_ms": s_ms + off, "date_pos": man.date_pos}, observed=bool(got), expected=want)
-        if abs((man.stop - man.start).total_seconds() * 1000 - h) > 1e-3 or abs((man.median - man.start).total_seconds() * 2000 - h) > 2e-3:
-            out.fail("thrust-window-length", "stop - start is not the duration / median is not the middle", {"duration_ms": h, "date_pos": man.date_pos})
+                out.fail(f"thrust-check-boundary-{pos_.lower()}", "ContinuousMan.check(date) is not start <= date < stop with start placed as date_pos says",
+                         {"date_ms": t, "duration_ms": hh, "checked_ms": s_ms + off, "date_pos": pos_}, observed=bool(got), expected=want)
+        edges = [round((v - d0).total_seconds() * 1000) for v in (man.start, man.median, man.stop)]
+        if edges != [s_ms, s_ms + hh // 2, s_ms + hh]:
+            out.fail(f"thrust-window-edges-{pos_.lower()}", "start / median / stop of a ContinuousMan are not where date_pos and the duration put them",
+                     {"date_ms": t, "duration_ms": hh, "date_pos": pos_}, observed=edges, expected=[s_ms, s_ms + hh // 2, s_ms + hh])
 
 
 def stable_dkep2dv(v, a, i, da, di, dO, mu=MU):
@@ -1596,6 +1662,15 @@ def oracle_dkep(out, rng, N):
                     "out-of-plane component differs from |v_final sin(dangle)|")
             out.fail("dkep2dv-alkashi-cancellation" if explained else "dkep2dv-formula-dv_w", "dkep2dv: " + what, inp, observed=dv.tolist(), expected=sdv)
             continue
+        # a Keplerian continuous maneuver accumulates the same delta-v over its duration
+        from beyond.orbits.man import KeplerianContinuousMan
+        from beyond.dates import Date, timedelta
+        kdur = rng.choice([60.0, 90.5, 0.75, 172800.25])
+        kacc = np.array(KeplerianContinuousMan(Date(2020, 5, 24), timedelta(seconds=kdur), da=da, di=di, dOmega=dO).accel(orbc), dtype=float)
+        out.count(key=("kcont", tuple(kep), da, di, dO, kdur), kind="kep-continuous", duration=kdur)
+        if abs(np.linalg.norm(kacc) * kdur - np.linalg.norm(dv)) > 1e-9 * np.linalg.norm(dv) + 1e-300:
+            out.fail("kep-continuous-magnitude", "KeplerianContinuousMan: |accel| x duration is not |dkep2dv|", dict(inp, duration=kdur), observed=float(np.linalg.norm(kacc) * kdur),
+                     expected=float(np.linalg.norm(dv)))
         # first-order realisation
         new = apply_dv(orbc, dv).copy(form="keplerian")
         old = orbc.copy(form="keplerian")
@@ -1695,10 +1770,19 @@ def oracle_frame_references(out, rng, N):
     for _ in range(N):
         meta, pristine, live = gen_reference(rng, d0)
         _FRAME_SEQ[0] += 1
-        name = f"C17R{_FRAME_SEQ[0] % 7}"
+        name = f"C17R{_FRAME_SEQ[0]}"     # a fresh name: see oracle_reregistration_parent for names used again
         ori = rng.choice(["QSW", "TNW", "qsw", None])
         before = snapshot(live)
-        orbit2frame(name, live, orientation=ori, exists_warning=False)
+        via = rng.choice(["orbit2frame", "as_frame"])
+        parent = rng.choice(["EME2000", "EME2000", "MOD", "TOD", "TEME"])
+        kw = {"orientation": ori, "exists_warning": False}
+        if parent != "EME2000":
+            from beyond.frames.frames import get_frame
+            kw["parent"] = get_frame(parent)
+        if via == "orbit2frame":
+            orbit2frame(name, live, **kw)
+        else:
+            live.as_frame(name, **kw)
         fam = f"{meta['kind']}-{meta['frame']}"
         static_elsewhere = meta["kind"] == "StateVector" and meta["frame"] != "EME2000"
         dates = [d0] if static_elsewhere else [d0, d0 + timedelta(seconds=q6(rng.uniform(-3000, 3000))), d0 + timedelta(seconds=q6(rng.uniform(0, 86400)))]
@@ -1706,7 +1790,7 @@ def oracle_frame_references(out, rng, N):
             for date in dates:
                 rc = np.array(ref_state(pristine, date))
                 sr, sv = np.linalg.norm(rc[:3]), np.linalg.norm(rc[3:])
-                inp = {"frame": name, "reference": meta, "orientation": ori, "date": str(date), "pass": rep}
+                inp = {"frame": name, "reference": meta, "orientation": ori, "date": str(date), "pass": rep, "created_by": via, "parent": parent}
                 at0 = np.array(mk_orbit(list(rc), "cartesian", None, date).copy(frame=name))
                 out.count(key=("ref-origin", fam, str(date), ori, rep, tuple(meta["kep"])), kind=f"ref-origin-{fam}", orientation=str(ori))
                 if not (np.all(np.abs(at0[:3]) <= 1e-9 * sr) and np.all(np.abs(at0[3:]) <= 1e-9 * sv + 1e-9)):
@@ -1714,6 +1798,13 @@ def oracle_frame_references(out, rng, N):
                 x = rc + np.array([rng.uniform(-1, 1) * 10 ** rng.uniform(0, 6) for _ in range(3)] + [rng.uniform(-1, 1) * 10 ** rng.uniform(-3, 2) for _ in range(3)])
                 o = mk_orbit(list(x), "cartesian", None, date)
                 loc1, loc2 = np.array(o.copy(frame=name)), np.array(o.copy(frame=name))
+                if ori is not None:
+                    m = np.array(axes_expected(ori.upper(), list(rc)))
+                    expl = np.concatenate([m @ (x[:3] - rc[:3]), m @ (x[3:] - rc[3:])])
+                    out.count(key=("ref-axes", fam, str(date), ori, rep, tuple(x)), kind=f"ref-axes-{fam}", created_by=via, parent=parent)
+                    if not (np.allclose(loc1[:3], expl[:3], rtol=0, atol=1e-9 * sr) and np.allclose(loc1[3:], expl[3:], rtol=0, atol=1e-9 * sv + 1e-9)):
+                        out.fail(f"orbit-frame-axes-ref-{fam}-{via}", "coordinates in the attached frame are not M (x - x_ref) with M the local orbital matrix of the reference",
+                                 dict(inp, state=x.tolist()), observed=loc1.tolist(), expected=expl.tolist())
                 back = np.array(o.copy(frame=name).copy(frame="EME2000"))
                 out.count(key=("ref-repeat", fam, str(date), ori, rep, tuple(x)), kind=f"ref-repeat-{fam}")
                 if not np.array_equal(loc1, loc2):
@@ -1726,6 +1817,57 @@ def oracle_frame_references(out, rng, N):
                     out.fail(f"orbit-frame-reference-modified-{fam}", "a conversion through an orbit-attached frame modified the reference object the frame was created from",
                              inp, observed=str(after[:3]), expected=str(before[:3]))
                     before = after
+
+
+PARENT_DIST = {"EME2000": 0, "MOD": 1, "TOD": 2, "TEME": 3}
+
+
+def oracle_reregistration_parent(out, rng, N):
+    """a name registered under one `parent`, used, and registered again under another (or the same) parent from another orbit:
+    afterwards the frame is the one of the latest registration — origin, axes, round trip.  (Refusing the second registration
+    with a ValueError is accepted.)"""
+    import numpy as np
+    from beyond.dates import Date, timedelta
+    from beyond.frames.frames import orbit2frame, get_frame
+    d0 = Date(2020, 5, 24)
+    for _ in range(N):
+        _FRAME_SEQ[0] += 1
+        name = f"C17P{_FRAME_SEQ[0]}"
+        regs = []
+        for k in range(2):
+            kep, ref = gen_ref_orbit(rng, d0)
+            regs.append((kep, ref, rng.choice(["QSW", "TNW", "QSW", None]), rng.choice(["EME2000", "EME2000", "MOD", "TOD", "TEME"])))
+        date = d0 + timedelta(seconds=q6(rng.uniform(0, 6000)))
+        refused = False
+        for k, (kep, ref, ori, parent) in enumerate(regs):
+            try:
+                orbit2frame(name, ref, orientation=ori, parent=get_frame(parent), exists_warning=False)
+            except ValueError:
+                refused = k > 0 and regs[0][3] != parent
+                if not refused:
+                    out.fail("orbit-frame-registration-raises", "orbit2frame raises ValueError", {"frame": name, "orientation": ori, "parent": parent, "registration": k})
+                break
+            rc = np.array(list(map(float, ref.propagate(date).copy(form="cartesian"))))
+            sr, sv = np.linalg.norm(rc[:3]), np.linalg.norm(rc[3:])
+            x = rc + np.array([rng.uniform(-1, 1) * 10 ** rng.uniform(0, 6) for _ in range(3)] + [rng.uniform(-1, 1) * 10 ** rng.uniform(-3, 2) for _ in range(3)])
+            o = mk_orbit(list(x), "cartesian", None, date)
+            loc = np.array(o.copy(frame=name))
+            back = np.array(o.copy(frame=name).copy(frame="EME2000"))
+            m = np.array(axes_expected(ori, list(rc))) if ori else np.identity(3)
+            expl = np.concatenate([m @ (x[:3] - rc[:3]), m @ (x[3:] - rc[3:])])
+            ok_axes = np.allclose(loc[:3], expl[:3], rtol=0, atol=1e-9 * sr) and np.allclose(loc[3:], expl[3:], rtol=0, atol=1e-9 * sv + 1e-9)
+            ok_rt = np.allclose(back[:3], x[:3], rtol=0, atol=1e-9 * sr) and np.allclose(back[3:], x[3:], rtol=0, atol=1e-9 * sv + 1e-9)
+            p0, p1 = regs[0][3], parent
+            out.count(key=("rereg", name, k), kind="reregistration-parent", registration=k, parents=f"{p0}->{p1}" if k else p1, local=bool(ori))
+            if not (ok_axes and ok_rt):
+                inp = {"frame": name, "first": {"ref_kep": regs[0][0], "orientation": regs[0][2], "parent": p0},
+                       "second": {"ref_kep": kep, "orientation": ori, "parent": p1} if k else None, "date": str(date), "state": x.tolist()}
+                # the earlier registration's node stays in the orientation graph: it is found first when it hangs nearer to the
+                # orientation of the converted state (EME2000) than the new one
+                stale = k == 1 and regs[0][2] and ori and PARENT_DIST[p0] < PARENT_DIST[p1]
+                out.fail("orbit-frame-reregistered-under-other-parent" if stale else f"orbit-frame-reregistration-{'axes' if not ok_axes else 'roundtrip'}",
+                         "after a frame name is registered again, a conversion into the frame does not use the axes of the latest reference / parent -> frame -> parent is not the identity",
+                         inp, observed=loc.tolist(), expected=expl.tolist())
 
 
 def oracle(ctx, widened):
@@ -1742,6 +1884,7 @@ def oracle(ctx, widened):
     oracle_accel_bodies(out, rng, 300 if big else 40)
     oracle_names(out, rng, 60 if big else 6)
     oracle_frame_references(out, rng, 80 if big else 12)
+    oracle_reregistration_parent(out, rng, 150 if big else 25)
     return out
 
 
